@@ -149,6 +149,7 @@ type DialBehaviour struct {
 	DropAfterRecv     int  // cut the link after the broker has read this many packets (0 = off)
 	FailSendN         int  // the client's n-th Send on this conn fails (before writing)
 	FailSendPost      bool // ... after the packet went out
+	FailSendQuiet     bool // ... and nothing else happens: the link stays up and silent (half-dead)
 	FailRecvN         int  // the client's n-th Receive fails
 }
 
@@ -247,6 +248,14 @@ func (c *Conn) Send(pkt packet.Generic, async bool) error {
 	c.sends++
 	n := c.sends
 	c.w.ev(&Ev{K: EvSend, C: c.N, P: pkt, N: n})
+	if c.Beh.FailSendN == n && c.Beh.FailSendQuiet {
+		// the write fails, the read side hears nothing: only the client's own
+		// Close can end this connection
+		c.w.ev(&Ev{K: EvFault, C: c.N, S: "client send fails, link stays up and silent", N: n, P: pkt})
+		c.w.Res.Count("fault_send_quiet", 1)
+		c.w.ev(&Ev{K: EvSent, C: c.N, P: pkt, N: n, Err: errInjected})
+		return errInjected
+	}
 	if c.Beh.FailSendN == n && !c.Beh.FailSendPost {
 		c.w.ev(&Ev{K: EvFault, C: c.N, S: "client send fails before writing", N: n, P: pkt})
 		c.w.Res.Count("fault_send_before", 1)
